@@ -12,12 +12,19 @@ pub mod refmodel;
 pub mod sweep;
 
 mod c_configs;
+mod c_hist;
+pub mod hist;
 mod c_inputs;
 mod replay;
 
-pub fn replay_other(kind: &str, _v: &serde_json::Value) -> i32 {
-    eprintln!("unknown replay kind {}", kind);
-    2
+pub fn replay_other(kind: &str, v: &serde_json::Value) -> i32 {
+    match kind {
+        "hist" => c_hist::replay_hist(v),
+        _ => {
+            eprintln!("unknown replay kind {}", kind);
+            2
+        }
+    }
 }
 
 use std::sync::atomic::Ordering;
@@ -61,6 +68,10 @@ fn main() {
         "C01" => c_inputs::c01(tier),
         "C02" => c_inputs::c02(tier),
         "C03" => c_configs::c03(tier),
+        "C04" => c_hist::c04(tier),
+        "C05" => c_hist::c05(tier),
+        "C06" => c_hist::c06(tier),
+        "C14" => c_hist::c14(tier),
         "C12" => c_configs::c12(tier),
         "C17" => c_inputs::c17(tier),
         other => {
